@@ -417,6 +417,20 @@ def edge_forms(P, R, rule='C20.TAB.2'):
             n += 1
             R.ob(rule, not bad, bad[0] if bad else P.relloc((f.blocks[b].get('term') or {}).get('loc')) if (f.blocks[b].get('term') or {}).get('loc') else f,
                  'the loop of %s over %s does not clear or shrink that list while it walks it' % (f.name, vec), key='walk-stable:%s:%s' % (f.name, vec))
+    # (d) removing a name from an edge list drops exactly the matching entries: inside the compacting scan the length
+    # only steps down per dropped entry; it is not set from the write index while entries are still to be read
+    for f in P.fns.values():
+        if not f.name.endswith('_vector_remove') or f.unit.startswith('tests/'):
+            continue
+        for head, body in rules.loops_of(f):
+            stepped = {t.ev['lhs']['name'] for x in body for t in f.block_sites(x) if t.ev['k'] == 'store' and is_var(t.ev.get('lhs')) and t.ev.get('op') in ('++', '+=')}
+            stepped |= {y['e']['name'] for x in body for t in f.block_sites(x) for ex in rules.event_exprs(t.ev) for y in walk(ex) if y.get('k') == 'un' and y.get('op') == '++' and is_var(y.get('e'))}
+            for x in body:
+                for t in f.block_sites(x):
+                    if t.ev['k'] == 'store' and is_field(t.ev.get('lhs'), 'used'):
+                        n += 1
+                        ok = t.ev.get('op') in ('--', '-=') or not (vars_in(t.ev.get('rhs')) & stepped)
+                        R.ob(rule, ok, t, 'in %s the length steps down once per dropped entry inside the scan (found `%s %s %s`)' % (f.name, sx(t.ev['lhs']), t.ev.get('op'), sx(t.ev.get('rhs'))), key='remove-length:%s' % f.name)
     R.floor(rule, 6, 'edge records, the walk mark, list walks')
 
 
@@ -449,6 +463,12 @@ def unload(P, R):
     rm = [s for s in cl.calls('const_string_vector_remove') if on_path(s.ev['args'][0], 'rdepends') and on_path(s.ev['args'][1], 'name')]
     inloop = bool(rm) and rm[0].bid in cl.reach([e.dst for e in cl.out[rm[0].bid]])
     R.ob('C20.GRD.3', bool(rm) and inloop, rm[0] if rm else cl, 'unloading a module removes it from the reverse list of each of its dependencies', key='cleanup-rdepends')
+    # ... its OWN name: the entry removed from a dependency's reverse list is the module being unloaded, not the dependency
+    for s in rm:
+        own = [x['base']['name'] for x in walk(s.ev['args'][0]) if x.get('k') == 'mem' and x.get('field') == 'rdepends' and is_var(x.get('base'))]
+        nm = [x['base']['name'] for x in walk(s.ev['args'][1]) if x.get('k') == 'mem' and x.get('field') == 'name' and is_var(x.get('base'))]
+        R.ob('C20.GRD.3', bool(own) and bool(nm) and own[0] != nm[0], s, 'the name taken out of %s\'s reverse list is the unloading module\'s (%s), not %s\'s own' % (own[0] if own else '?', nm[0] if nm else '?', own[0] if own else '?'),
+             key='cleanup-own-name')
     dt = dlsym_calls(P, cl, 'module_destructor')
     R.ob('C20.GRD.3', len(dt) == 1, dt[0] if dt else cl, 'the per-module cleanup calls the destructor', key='dtor-called', nontrivial=False)
     if dt and rm:
@@ -533,4 +553,8 @@ def run(P, R, tier):
     reverse_list_removal(P, R)
     loading_context(P, R)
     edge_forms(P, R)
+    # every module of the registry is looked at when the walks are started: one that is already visited is skipped
+    ll = P.need_fn('module_load_list')
+    nt = rules.full_traversal(P, R, 'C20.MPT.6', ll, lambda c: any(is_var(x) and x.get('t', '').startswith('struct set_node') for x in walk(c)), 'walk over the module registry', error_returns=True)
+    R.floor('C20.MPT.6', 2, 'registry walks of the list loader')
     return EXPLANATION, ASSUMPTIONS
